@@ -28,8 +28,9 @@ pub struct Sugar {
     pub pinned: bool,
 }
 
-/// The documented spelling of the surface sugar (README grammar for ASCII; the LaTeX and Han (漢)
-/// tables of the crate documentation), pinned here so that the meaning of `{--`, `--]`, ... is stated
+/// The spelling of the surface sugar as published (README grammar for ASCII; for LaTeX and Han (漢) the
+/// crate's format tables and sample strings at the pinned commit - there is no other document),
+/// pinned here so that the meaning of `{--`, `--]`, ... is stated
 /// independently of the table the parsers look them up in.
 pub struct Pinned {
     pub instance: &'static str,
